@@ -218,6 +218,9 @@ theorem step_order (E : Env S) (hw : NNW E) (g g' : Gen S) (out : Option Prog) (
       · simp only [Option.some.injEq, Prod.mk.injEq] at h; obtain ⟨rfl, rfl⟩ := h
         simp only [GOrd, Phase.cost?]; exact ⟨low, hos, hbl⟩
       · rename_i nt nts cost hnc
+        split at h
+        · simp only [Option.some.injEq, Prod.mk.injEq] at h; obtain ⟨rfl, rfl⟩ := h
+          simp only [GOrd, Phase.cost?]; exact ⟨low, hos, hbl⟩
         simp only [Option.some.injEq, Prod.mk.injEq] at h; obtain ⟨rfl, rfl⟩ := h
         obtain ⟨hmin, nt0, l0, e0, hm0, he0, hc0⟩ := nextCheapest_min g.st hos.heaps _ _ hnc
         have hq0 := hos.q _ _ hm0 _ he0
